@@ -22,6 +22,30 @@ import (
 	"verifharness/tlbdesc"
 )
 
+// every way the library offers to decode a cell: the raw-cell positions (boc.Cell, Any)
+// must keep exotic cells as they are under all of them; a library resolver may only
+// replace library cells met at TYPED positions
+type c03Decoder struct {
+	name string
+	dec  func(c *boc.Cell, o any) error
+}
+
+func c03Decoders(r *prng.R) []c03Decoder {
+	resolver := func(hash tlb.Bits256) (*boc.Cell, error) {
+		c := boc.NewCell()
+		_ = c.WriteUint(0xC0DE, 16)
+		_ = c.WriteBytes(hash[:4])
+		return c, nil
+	}
+	return []c03Decoder{
+		{"unmarshal", tlb.Unmarshal},
+		{"newdecoder", func(c *boc.Cell, o any) error { return tlb.NewDecoder().Unmarshal(c, o) }},
+		{"resolver", func(c *boc.Cell, o any) error { return tlb.NewDecoder().WithLibraryResolver(resolver).Unmarshal(c, o) }},
+		{"zero-resolver", func(c *boc.Cell, o any) error { return new(tlb.Decoder).WithLibraryResolver(resolver).Unmarshal(c, o) }},
+		{"debug", func(c *boc.Cell, o any) error { return tlb.NewDecoder().WithDebug().Unmarshal(c, o) }},
+	}
+}
+
 type exoticInfo struct {
 	hash string
 	typ  boc.CellType
@@ -200,18 +224,28 @@ func c03ExoticFamily(c *Ctx, prop string) {
 		_ = src.AddRef(data)
 		want, _ := src.Hash()
 		in := sx.L(sx.Str("tlb.StateInit"), sx.Str(hex.EncodeToString(want)))
-		var si tlb.StateInit
-		if err := tlb.Unmarshal(src, &si); err != nil {
-			c.Fail(kind, in, "stateinit-exotic-reencode", "a state-init whose code is a library cell does not decode: "+err.Error())
-			continue
+		okAll := true
+		for _, dc := range c03Decoders(c.R) {
+			var si tlb.StateInit
+			src.ResetCounters()
+			if err := dc.dec(src, &si); err != nil {
+				c.Fail(kind, in, "stateinit-exotic-reencode", "a state-init whose code is a library cell does not decode ("+dc.name+"): "+err.Error())
+				okAll = false
+				break
+			}
+			out := boc.NewCell()
+			if err := tlb.Marshal(out, si); err != nil {
+				c.Fail(kind, in, "stateinit-exotic-reencode", "a state-init whose code is a library cell does not encode ("+dc.name+"): "+err.Error())
+				okAll = false
+				break
+			}
+			if got, _ := out.Hash(); !bytes.Equal(got, want) {
+				c.Fail(kind, in, "stateinit-exotic-reencode", "decode ("+dc.name+") -> encode of a state-init whose code is a library cell changes its hash: the raw code cell was not kept as it is")
+				okAll = false
+				break
+			}
 		}
-		out := boc.NewCell()
-		if err := tlb.Marshal(out, si); err != nil {
-			c.Fail(kind, in, "stateinit-exotic-reencode", "a state-init whose code is a library cell does not encode: "+err.Error())
-			continue
-		}
-		if got, _ := out.Hash(); !bytes.Equal(got, want) {
-			c.Fail(kind, in, "stateinit-exotic-reencode", "decode -> encode of a state-init whose code is a library cell changes its hash (the cell type of the code reference is lost)")
+		if !okAll {
 			continue
 		}
 		c.Note(kind, "exotic|stateinit-library-code|reencode-ok", in)
@@ -282,28 +316,30 @@ func c03ExoticCheck(c *Ctx, kind string, ct *c03Type, pv reflect.Value, planted 
 		return
 	}
 	want, _ := cell.Hash()
-	pv2 := reflect.New(ct.t)
-	cell.ResetCounters()
-	func() {
-		defer func() {
-			if r := recover(); r != nil {
-				err = fmt.Errorf("panic: %v", r)
-			}
+	for _, dc := range c03Decoders(c.R) {
+		pv2 := reflect.New(ct.t)
+		cell.ResetCounters()
+		func() {
+			defer func() {
+				if r := recover(); r != nil {
+					err = fmt.Errorf("panic: %v", r)
+				}
+			}()
+			err = dc.dec(cell, pv2.Interface())
 		}()
-		err = tlb.Unmarshal(cell, pv2.Interface())
-	}()
-	if err != nil {
-		c.Note(kind, "exotic|"+label+"|decode-err", in)
-		return
-	}
-	again := boc.NewCell()
-	if err := tlb.Marshal(again, pv2.Elem().Interface()); err != nil {
-		c.Fail(kind, in, key, "the value decoded from a cell with exotic references does not encode again ("+ct.name+"): "+err.Error())
-		return
-	}
-	if got, _ := again.Hash(); !bytes.Equal(got, want) {
-		c.Fail(kind, in, key, "decode -> encode of "+ct.name+" with exotic references changes the hash")
-		return
+		if err != nil {
+			c.Note(kind, "exotic|"+label+"|decode-err-"+dc.name, in)
+			return
+		}
+		again := boc.NewCell()
+		if err := tlb.Marshal(again, pv2.Elem().Interface()); err != nil {
+			c.Fail(kind, in, key, "the value decoded ("+dc.name+") from a cell with exotic references does not encode again ("+ct.name+"): "+err.Error())
+			return
+		}
+		if got, _ := again.Hash(); !bytes.Equal(got, want) {
+			c.Fail(kind, in, key, "decode ("+dc.name+") -> encode of "+ct.name+" with exotic cells at raw-cell positions changes the hash")
+			return
+		}
 	}
 	c.Note(kind, "exotic|"+label+"|reencode-ok", in)
 }
